@@ -174,6 +174,7 @@ type RecNode struct {
 	closes    int64
 	CloseOps  []string // op labels under which Close ran
 	cmu       sync.Mutex
+	reg       eventlogger.Node // what is handed to RegisterNode: the node itself or a wrapper around it
 
 	// optional callbacks
 	OnProcess func(ctx context.Context, n *RecNode, e *eventlogger.Event, ent *Entry)
@@ -259,6 +260,39 @@ func (n *RecNode) scribble(e *eventlogger.Event, ent *Entry) {
 	if e != nil && rt.Mix(n.behSeed, 55)%3 == 0 {
 		e.FormattedAs("scribble-"+n.Obj, []byte(ent.Prov))
 	}
+}
+
+// Two ways an application wraps a node it registers (NodeUnwrapper): a wrapper that leaves closing to the Broker
+// (it finds the wrapped node's Close through Unwrap) and one that has a Close of its own which forwards. Either
+// way the wrapped node is closed exactly when, and exactly as often as, an unwrapped one.
+type wrapNoClose struct{ in *RecNode }
+
+func (w *wrapNoClose) Process(ctx context.Context, e *eventlogger.Event) (*eventlogger.Event, error) {
+	return w.in.Process(ctx, e)
+}
+func (w *wrapNoClose) Reopen() error              { return w.in.Reopen() }
+func (w *wrapNoClose) Type() eventlogger.NodeType { return w.in.Type() }
+func (w *wrapNoClose) Unwrap() eventlogger.Node   { return w.in }
+
+type wrapClose struct{ wrapNoClose }
+
+func (w *wrapClose) Close(ctx context.Context) error { return w.in.Close(ctx) }
+
+// asRegistered is what the harness hands to RegisterNode for this node object (always the same value).
+func (n *RecNode) asRegistered() eventlogger.Node {
+	n.cmu.Lock()
+	defer n.cmu.Unlock()
+	if n.reg == nil {
+		switch rt.Mix(n.behSeed, 33) % 8 {
+		case 0:
+			n.reg = &wrapNoClose{in: n}
+		case 1:
+			n.reg = &wrapClose{wrapNoClose{in: n}}
+		default:
+			n.reg = n
+		}
+	}
+	return n.reg
 }
 
 func (n *RecNode) Reopen() error {
@@ -603,6 +637,11 @@ func policyOpts(node bool, policy string) []eventlogger.Option {
 	case "ExplicitEmpty":
 		// the empty string given explicitly is not one of the two policies
 		return []eventlogger.Option{with("")}
+	case "LowerDeny":
+		// a spelling that is not one of the two values is not one of the two values
+		return []eventlogger.Option{with("denyoverwrite")}
+	case "SpaceDeny":
+		return []eventlogger.Option{with(" DenyOverwrite")}
 	case "BogusThenDeny":
 		// an invalid value is invalid whatever follows it in the same call
 		return []eventlogger.Option{with("bogus"), with(eventlogger.DenyOverwrite)}
